@@ -57,7 +57,7 @@ func ruleOU2(c *Ctx) {
 					bad = "returns a value that is not a call result"
 					continue
 				}
-				if cal := cl.Call.StaticCallee(); cal != nil && cal.Pkg == c.Ergo {
+				if cal := calleeOf(&cl.Call); cal != nil && cal.Pkg == c.Ergo {
 					callsErgo = true
 					continue
 				}
@@ -70,7 +70,7 @@ func ruleOU2(c *Ctx) {
 		}
 		// dropped errors: a call into internal/ergo returning error whose result is unused
 		for _, call := range callsIn(fn) {
-			cal := call.Common().StaticCallee()
+			cal := calleeOf(call.Common())
 			if cal == nil || cal.Pkg != c.Ergo {
 				continue
 			}
@@ -199,7 +199,7 @@ func ruleOU5(c *Ctx) {
 		if e.To == c.F.Anchors["readEvents"] || e.To == c.F.Anchors["appendEvents"] || e.To == c.F.Anchors["replaceEventsAtomically"] || e.Kind == "lock-callback" {
 			return true
 		}
-		return e.To == lg || e.To == ed || e.To == c.F.LockPrim || strings.HasPrefix(e.To.Name(), "Parse") || e.To.Name() == "applySetUpdates"
+		return e.To == lg || e.To == ed || c.F.isLockFn(e.To) || strings.HasPrefix(e.To.Name(), "Parse") || e.To.Name() == "applySetUpdates"
 	})
 	nSites, nFn := 0, 0
 	for _, fn := range c.Fns {
@@ -460,7 +460,7 @@ func (c *Ctx) sortsInPlace(call ssa.CallInstruction, d int) bool {
 	case "sort.Slice", "sort.SliceStable", "sort.Strings", "sort.Sort", "sort.Stable", "slices.Sort", "slices.SortFunc", "slices.SortStableFunc":
 		return true
 	}
-	cal := call.Common().StaticCallee()
+	cal := calleeOf(call.Common())
 	if cal == nil || !c.InModule(cal) || d > 1 || cal.Signature.Results().Len() != 0 {
 		return false
 	}
@@ -597,7 +597,7 @@ func ruleOU8(c *Ctx) {
 				return false
 			}
 			nm := calleeFullName(&cl.Call)
-			if cal := cl.Call.StaticCallee(); cal != nil && cal.Name() == "visibleLen" {
+			if cal := calleeOf(&cl.Call); cal != nil && cal.Name() == "visibleLen" {
 				return true
 			}
 			return strings.Contains(nm, "runewidth.")
@@ -679,7 +679,7 @@ func ruleOU9(c *Ctx) {
 		}
 		var budgets []ssa.Value
 		for _, call := range callsIn(f) {
-			if cal := call.Common().StaticCallee(); cal != nil && trunc[cal] {
+			if cal := calleeOf(call.Common()); cal != nil && trunc[cal] {
 				for i, a := range call.Common().Args {
 					if i == 0 {
 						continue // the text
